@@ -216,6 +216,13 @@ def C20(tier, seed):
     big.harness_bin = HARNESS_SERDE
     big.required = {"C20.roundtrip_eq", "C20.twin"}
     stages.append(big)
+    # long simulated histories: a dropped or altered compensation term shows only after further accumulation
+    for ty, n in (("f32", 150), ("f64", 60)):
+        sim = acc_stage("arith", 30, ty=ty, rich=0, R=2, req=[], shards=8, name=f"rt_arith_{ty}_sim", simulate=f"num={n if tier == 'quick' else 10 * n}")
+        sim.env.update({"ACC_RT": 1, "ACC_BIG": 1})
+        sim.harness_bin = HARNESS_SERDE
+        sim.required = {"C20.roundtrip_eq", "C20.twin"}
+        stages.append(sim)
     return {
         "stages": stages,
         "level": "model_checking",
@@ -374,16 +381,23 @@ def C01(tier, seed):
     }
 
 
+def c06_designed():
+    d = mean_stage("designed", "C06", ["C06.real_dof_critical_value"], 0, shards=1)
+    d.harness_env = {"HARNESS_THREADS": 1}
+    return d
+
+
 def C06(tier, seed):
     st = mean_stage("c06", "C06", arith_req("C06"), 0)
     st.mc = list(TABLES_MC)
     return {
-        "stages": [st, prop_stage("row", 30 if tier == "quick" else 60, ["C02.root_lo", "C02.root_hi", "C02.negative_z", "C02.zero_z"],
+        "stages": [st, c06_designed(), prop_stage("row", 30 if tier == "quick" else 60, ["C02.root_lo", "C02.root_hi", "C02.negative_z", "C02.zero_z"],
                                   levels="all")],
         "exhaustive": True,
         "rule": "symmetric probe samples (+-1, exact standard error 1/sqrt(n-1)) for 150 (all 430) degrees-of-freedom rows of the reference table "
                 "(every integer 1..120 (300), log-spaced up to 99 999) and n beyond the switch x all 17 levels x 3 kinds: the implied critical value "
-                "must lie in the certified enclosure of the true t / normal quantile (relative allowance 2^-29 .. 2^-12 by nu). The z implied by "
+                "must lie in the certified enclosure of the true t / normal quantile (relative allowance 2^-29 .. 2^-12 by nu); 12 designed unpaired "
+                "pairs with non-integer effective dof against the t quantile at that real dof, executed back to back on one thread. The z implied by "
                 "proportion intervals is decided by the root enclosure of C02 (same validator, all 17 levels).",
         "assumptions": NUM_TRUST + ["quantiles are checked at the tabulated (nu, level) pairs only"],
     }
@@ -395,10 +409,15 @@ def C04(tier, seed):
                                    "C04.exchange_mirrors", "C04.call_styles_agree", "C04.unpaired_family_0", "C04.unpaired_family_1",
                                    "C04.unpaired_family_2"], 30 if tier == "quick" else 300)
     st.mc = list(TABLES_MC)
+    designed = mean_stage("designed", "C04", ["C04.designed_dof", "C04.real_dof_critical_value", "C04.exchange_mirrors"], 0, shards=1)
+    designed.harness_env = {"HARNESS_THREADS": 1}      # consecutive calls on one thread, in generator order
     return {
-        "stages": [st],
+        "stages": [st, designed],
         "exhaustive": False,
-        "rule": "30 (300) seeded paired samples (n 2..150, explicit aligned sequences) through 3 (4) feeding styles, unequal lengths in both directions; "
+        "rule": "12 designed sample pairs with non-integer effective dof (1.9 .. 20.2; neighbours share the integer part) x 17 levels x 3 kinds, each "
+                "also exchanged, executed back to back on one thread and judged against the t quantile at that REAL dof (table rows generated for "
+                "the exact rational dof, which TLC re-derives from the samples); "
+                "30 (300) seeded paired samples (n 2..150, explicit aligned sequences) through 3 (4) feeding styles, unequal lengths in both directions; "
                 "30 (300) unpaired sample pairs in three families (one constant sample: nu = na-1; equal spread and size: nu = 2n; random: nu bracketed "
                 "by floor/ceil rows of the t table) through 4 (8) feeding styles, each also with the samples exchanged (must mirror bit for bit with "
                 "upper and lower exchanged) x 6 levels x 3 kinds x f32/f64.",
